@@ -29,7 +29,14 @@ theorem inv_sav_late {cs : List Chunk} {v : Variant} {c c' : Cfg} (hcs : cs ≠ 
     · injection hs with hs; subst hs; exact inv_submit h hp
     · -- the write just submitted is not yet in `pending`
       injection hs with hs; subst hs
-      have := inv_unreg (inv_pass (x := .markUnreg) h hp (Or.inr (Or.inr (Or.inr (Or.inr rfl)))) (by simp) (by simp)) true
+      have hb : true = true → v = .forked → c.handling = true := by
+        intro _ hv
+        cases hh : c.handling with
+        | true => rfl
+        | false =>
+          have m := main_of_inv h hp (by simp [rank]) hh
+          exact absurd (by rw [hp]; simp) (m.noApp hv).2
+      have := inv_unreg (inv_pass (x := .markUnreg) h hp (Or.inr (Or.inr (Or.inr (Or.inr rfl)))) (by simp) (by simp)) true hb
       simpa using this
     · -- join
       split at hs
@@ -45,7 +52,7 @@ theorem inv_sav_late {cs : List Chunk} {v : Variant} {c c' : Cfg} (hcs : cs ≠ 
         split at hs
         · injection hs with hs; subst hs; exact inv_fail h (by rw [hp]; simp)
         · injection hs with hs; subst hs
-          have := inv_unreg (inv_pass h hp (Or.inr (Or.inl rfl)) (by simp) (by simp)) false
+          have := inv_unreg (inv_pass h hp (Or.inr (Or.inl rfl)) (by simp) (by simp)) false (by simp)
           simpa using this
       split at hs
       · exact hpoll _ hs
@@ -204,16 +211,16 @@ theorem inv_run {cs : List Chunk} {v : Variant} (hcs : cs ≠ []) : ∀ (acts : 
 
 /-- the invariant holds when a saver is created on a safe file system -/
 theorem inv_init {cs : List Chunk} {fs : FS} (hsafe : SafeFS cs fs) (v : Variant) (hs : HandlerSpec)
-    (hv : v ≠ .forked) (hsv : hs.variant ≠ .forked) : Inv cs v (initCfg fs v {} cs hs) := by
-  have hshape := shape_saverProg v hv cs
-  have hk : hr (saverProg v {} cs) = 0 := by rw [saverProg_eq v hv]; rfl
+    : Inv cs v (initCfg fs v {} cs hs) := by
+  have hshape := shape_saverProg v cs
+  have hk : hr (saverProg v {} cs) = 0 := by rw [saverProg_eq v]; rfl
   constructor
   · exact hshape
   · intro w hw; simp [initCfg] at hw
   · intro _; rfl
   · intro _; exact ⟨rfl, rfl, rfl⟩
   · intro _
-    refine ⟨initItems, saverProg_eq v hv cs, ?_⟩
+    refine ⟨initItems, saverProg_eq v cs, ?_⟩
     intro x hx
     simp only [initItems, flushItems, List.cons_append, List.nil_append, List.mem_cons, List.mem_nil_iff, or_false] at hx
     rcases hx with rfl | rfl | rfl | rfl | rfl | rfl | rfl | rfl | rfl <;> simp [rank]
@@ -227,7 +234,7 @@ theorem inv_init {cs : List Chunk} {fs : FS} (hsafe : SafeFS cs fs) (v : Variant
   · intro h12 _; simp only [initCfg] at h12; omega
   · intro h19 _; simp only [initCfg] at h19; omega
   · intro h25; simp only [initCfg] at h25; omega
-  · exact ⟨⟨hv, hsv⟩, by intro w hw; simp [initCfg] at hw, by intro w hw; simp [initCfg] at hw,
+  · exact ⟨by intro _ _ w hw; simp [initCfg] at hw, by intro _ _; rfl, by intro w hw; simp [initCfg] at hw,
       by intro hh; simp [initCfg] at hh⟩
 
 /-- file-system states reachable by any number of `make` attempts of the current protocol, each with any variant,
@@ -235,13 +242,13 @@ any handler behaviour, any schedule and any faults, stopped (process death) at a
 inductive Reach (cs : List Chunk) : FS → Prop where
   | empty : Reach cs FS.empty
   | attempt {fs : FS} {v : Variant} {hs : HandlerSpec} {acts : List Act} {c' : Cfg} :
-      Reach cs fs → v ≠ .forked → hs.variant ≠ .forked → start fs = .save →
+      Reach cs fs → start fs = .save →
       run (initCfg fs v {} cs hs) acts = some c' → Reach cs c'.fs
 
 theorem reach_safe {cs : List Chunk} (hcs : cs ≠ []) {fs : FS} (h : Reach cs fs) : SafeFS cs fs := by
   induction h with
   | empty => intro d hd; simp [FS.empty] at hd
-  | attempt _ hv hsv _ hrun ih => exact (inv_run hcs _ (inv_init ih _ _ hv hsv) hrun).safe
+  | attempt _ _ hrun ih => exact (inv_run hcs _ (inv_init ih _ _) hrun).safe
 
 /-- what a safe file system looks like to a reader -/
 theorem safe_visible {cs : List Chunk} {fs : FS} (h : SafeFS cs fs) :
@@ -485,12 +492,23 @@ theorem rep_step {cs : List Chunk} {v : Variant} {c c' : Cfg} (hI : Inv cs v c) 
         · simp only at h; rw [hrun] at h; cases h
         · simp only at h; rw [hrun] at h; cases h
   | finish rest hp he =>
-    have hnf : (c.spec.variant == Variant.forked) = false := by
-      have := hI.side.nf.2
-      cases hv : c.spec.variant <;> simp_all
-    rw [hnf, Bool.false_and, Bool.or_false] at he
-    subst he
     have hs : Shape (.finish :: rest) := hp ▸ hI.shape
+    have hall0 : c.handling = false → ∀ w ∈ c.workers, w.st = .ok := by
+      intro hh
+      have m := hI.main hh (by rw [hp]; simp [rank]) (by rw [hp]; simp [rank])
+      exact all_ok_late m hI.shape.sorted (by rw [hp]; simp [rank])
+    -- inlined savers: a failed pool task makes the caller's outcome "raised" — but then the saver is inside the handler
+    have hnf : (c.handling || (c.spec.variant == Variant.forked && anyFailed c.workers)) = c.handling := by
+      cases hh : c.handling with
+      | true => rfl
+      | false =>
+        have hnone : anyFailed c.workers = false := by
+          simp only [anyFailed, List.any_eq_false, beq_iff_eq]
+          intro w hw hf
+          have := hall0 hh w hw; rw [hf] at this; cases this
+        simp [hnone]
+    rw [hnf] at he
+    subst he
     have hrest : rest = [] := by
       cases rest with
       | nil => rfl
@@ -651,7 +669,7 @@ theorem runAuto_run (o : RmOrder) : ∀ (fuel : Nat) (ft : List Fault) (c : Cfg)
 
 /-- the states the driver's `attempt` produces (current protocol) are reachable in the sense of `Reach` -/
 theorem attempt_reach {cs : List Chunk} {fs : FS} (h : Reach cs fs) (v : Variant) (hs : HandlerSpec) (o : RmOrder)
-    (fts : List Fault) (hv : v ≠ .forked) (hsv : hs.variant ≠ .forked) :
+    (fts : List Fault) :
     Reach cs (attempt fs v {} cs hs o fts).1.cfg.fs := by
   unfold attempt
   split
@@ -659,6 +677,6 @@ theorem attempt_reach {cs : List Chunk} {fs : FS} (h : Reach cs fs) (v : Variant
   · exact h
   · rename_i hst
     obtain ⟨acts, ha⟩ := runAuto_run o (fuelFor (initCfg fs v {} cs hs)) fts (initCfg fs v {} cs hs) []
-    exact Reach.attempt h hv hsv hst ha
+    exact Reach.attempt h hst ha
 
 end Strax.FS
